@@ -104,8 +104,13 @@ Definition flatten_none_list (t : ty) (vs : list value) : res (list value) :=
   do ls <- leaves_l t vs;
   Ok (map (promote_leaf (forallb is_bool_dt (leaf_dts t))) ls).
 (* ak.flatten(array, axis=None)  and  ak.ravel(array) *)
+(* an array without any leaf array (only field-less records) has nothing to concatenate: NumPy raises *)
 Definition spec_flatten_none (t : ty) (vs : list value) : res value :=
-  rmap VList (flatten_none_list t vs).
+  if has_union t then unspecified else
+  match leaf_dts t with
+  | [] => Err EValue
+  | _ => rmap VList (flatten_none_list t vs)
+  end.
 
 (* ak.flatten(array, axis): axis 0 drops the missing entries of the outer dimension, every other axis is
    Content::flatten (AwkV.Ops_Flatten.flatten_spec) *)
@@ -123,10 +128,19 @@ Definition spec_flatten (axis : option Z) (t : ty) (vs : list value) : res value
       else rmap VList (flatten_spec a t vs)
   end.
 
-(* ak.num(array, axis): axis 0 is the length *)
+(* ak.num(array, axis): axis 0 is the length (for an array that IS a record array: the length, once per field,
+   as a record - RecordArray::num treats records as transparent) *)
 Definition spec_num (axis : Z) (t : ty) (vs : list value) : res value :=
   do ax <- resolve_axis t 0 axis;
-  if ax =? 0 then Ok (VNum (DZ (zlen vs))) else rmap VList (num_spec axis t vs).
+  if ax =? 0 then
+    let n := VNum (DZ (zlen vs)) in
+    match t with
+    | TRec (Some ks) ts => if Nat.eqb (length ks) (length ts) then Ok (VRec (map (fun k => (k, n)) ks)) else Err EValue
+    | TRec None ts => Ok (VTup (map (fun _ => n) ts))
+    | TUnion _ => unspecified
+    | _ => Ok n
+    end
+  else rmap VList (num_spec axis t vs).
 
 (* ak.local_index(array, axis) *)
 Definition spec_local_index (axis : Z) (t : ty) (vs : list value) : res value :=
@@ -205,6 +219,15 @@ Definition unflatten_vals (ax : Z) (vs : list value) (cs : list (option Z)) : re
     do x <- unfl_n (Z.to_nat ax) (VList vs) cs;
     match snd x with [] => Ok (fst x) | _ => Err EValue end.
 
+(* is the list node [n] levels down a string (or is there a string above it)?  unflatten would cut characters *)
+Fixpoint level_is_string (n : nat) (t : ty) {struct t} : bool :=
+  match t with
+  | TOpt t' => level_is_string n t'
+  | TList _ (Some _) _ => true
+  | TList _ None t' => match n with O => false | S k => level_is_string k t' end
+  | _ => false
+  end.
+
 (* counts: an integer (regular lists: RegularArray(layout, counts), a remainder is dropped) or an array *)
 Inductive counts_arg := CInt (n : Z) | CArr (tc : ty) (cs : list value).
 
@@ -218,6 +241,7 @@ Definition spec_unflatten (axis : Z) (t : ty) (vs : list value) (c : counts_arg)
       else unspecified
   | CArr tc cs =>
       if ax <? 0 then unspecified else
+      if (1 <=? ax) && level_is_string (Z.to_nat (ax - 1)) t then unspecified else
       do cl <- counts_of tc cs;
       unflatten_vals ax vs cl
   end.
@@ -233,7 +257,9 @@ Definition spec_rt_unflatten (axis : Z) (t : ty) (vs : list value) : res value :
   if axis <? 1 then unspecified else
   do f <- flatten_spec axis t vs;
   do c <- num_spec axis t vs;
-  unflatten_vals (axis - 1) f (flat_map int_leaves c).
+  (* axis 1: the counts keep their None entries (missing lists come back); deeper: flatten(counts, None) drops them *)
+  do cs <- (if axis =? 1 then mapM count_of c else Ok (flat_map int_leaves c));
+  unflatten_vals (axis - 1) f cs.
 
 (* ====================================================================== C03 *)
 Definition default_mask (r : reducer) : bool :=
@@ -323,18 +349,30 @@ Definition spec_argcombinations (n : Z) (repl : bool) (axis : Z) (fields : optio
   else rmap VList (spec_ax (argcomb_ff n repl fields) true (fun _ => true) false t axis vs).
 
 (* ---- cartesian ---- *)
-(* itertools.product of the lists [ls] in order; level [i] is kept as a nested list iff [i] is in [nested] *)
-Fixpoint cart (fields : option (list name)) (nested : list Z) (i : Z) (ls : list (list value)) (prefix : list value)
-  {struct ls} : res (list value) :=
+(* itertools.product of the lists [ls] in order; level [i] is kept as a nested list iff [i] is in [nested].
+   A MISSING list (None where the list of array [i] should be) makes the product missing at the depth where it
+   arises: the whole entry for the first array, one None per combination of the earlier arrays otherwise
+   (the code wraps the option node, not the list under it, in the new axes); an un-nested None level
+   contributes nothing. *)
+Definition unopt_l (o : option (list value)) : list value := match o with Some l => l | None => [] end.
+Fixpoint cart (fields : option (list name)) (nested : list Z) (i : Z) (ls : list (option (list value)))
+         (prefix : list value) {struct ls} : res (option (list value)) :=
   match ls with
-  | [] => do t <- mk_tuple fields (rev prefix); Ok [t]
-  | l :: rest =>
+  | [] => do t <- mk_tuple fields (rev prefix); Ok (Some [t])
+  | None :: _ => Ok None
+  | Some l :: rest =>
       do groups <- mapM (fun a => cart fields nested (i + 1) rest (a :: prefix)) l;
       match rest with
-      | [] => Ok (concat groups)
-      | _ => if existsb (Z.eqb i) nested then Ok (map VList groups) else Ok (concat groups)
+      | [] => Ok (Some (concat (map unopt_l groups)))
+      | _ =>
+          if existsb (Z.eqb i) nested
+          then Ok (Some (map (fun g => match g with Some x => VList x | None => VNone end) groups))
+          else Ok (Some (concat (map unopt_l groups)))
       end
   end.
+Definition cart_entry (fields : option (list name)) (nested : list Z) (ls : list (option (list value))) : res value :=
+  do r <- cart fields nested 0 ls [];
+  Ok (match r with Some l => VList l | None => VNone end).
 
 Inductive nested_arg := NNone | NAll | NList (l : list Z).
 Definition nested_list (k : Z) (n : nested_arg) : res (list Z) :=
@@ -359,22 +397,33 @@ Definition rows_of (cols : list (list value)) : list (list value) :=
 Definition is_reg1 (t : ty) : bool :=
   match t with TList (Some 1) _ _ => true | _ => false end.
 
+(* the list of one array at the axis: None when missing *)
+Definition axis_list (p : ty * value) : res (option (list value)) :=
+  if is_opt (fst p) && is_none (snd p) then Ok None else
+  match strip_opt1 (fst p) with
+  | TList _ None _ => rmap Some (elems (snd p))
+  | _ => Err EValue
+  end.
+
 (* corresponding entries of the k arrays, [n] list levels above the axis *)
 Fixpoint cart_v (fields : option (list name)) (nested : list Z) (n : nat) (ps : list (ty * value)) {struct n}
   : res value :=
   if existsb (fun p => is_union (fst p)) ps then unspecified else
-  if existsb (fun p => is_opt (fst p) && is_none (snd p)) ps then Ok VNone else
-  let ps := map (fun p => (strip_opt1 (fst p), snd p)) ps in
-  if existsb (fun p => is_rec (fst p) || is_opt (fst p)) ps then unspecified else
-  if negb (forallb (fun p => is_listty (fst p)) ps) then
-    (if existsb (fun p => is_listty (fst p)) ps then unspecified else Err EValue)
-  else
   match n with
   | O =>
-      if existsb (fun p => match fst p with TList _ (Some _) _ => true | _ => false end) ps then Err EValue else
-      do ls <- mapM (fun p => elems (snd p)) ps;
-      rmap VList (cart fields nested 0 ls [])
+      let ts := map (fun p => strip_opt1 (fst p)) ps in
+      if existsb (fun t => is_rec t || is_opt t || is_union t) ts then unspecified else
+      if existsb (fun t => match t with TList _ (Some _) _ => true | _ => false end) ts then Err EValue else
+      if negb (forallb is_listty ts) then (if existsb is_listty ts then unspecified else Err EValue) else
+      do ls <- mapM axis_list ps;
+      cart_entry fields nested ls
   | S k =>
+      if existsb (fun p => is_opt (fst p) && is_none (snd p)) ps then Ok VNone else
+      let ps := map (fun p => (strip_opt1 (fst p), snd p)) ps in
+      if existsb (fun p => is_rec (fst p) || is_opt (fst p)) ps then unspecified else
+      if negb (forallb (fun p => is_listty (fst p)) ps) then
+        (if existsb (fun p => is_listty (fst p)) ps then unspecified else Err EValue)
+      else
       do ls <- mapM (fun p => elems (snd p)) ps;
       if list_lengths_differ ls then
         (if existsb (fun p => is_reg1 (fst p)) ps then unspecified else Err EValue)
@@ -398,7 +447,7 @@ Definition spec_cartesian (axis : Z) (nested : nested_arg) (fields : option (lis
       do ax <- same_axis t0 axis (map fst arrs);
       do nl <- nested_list (zlen arrs) nested;
       if negb (fields_ok (zlen arrs) fields) then Err EValue else
-      if ax =? 0 then rmap VList (cart fields nl 0 (map snd arrs) [])
+      if ax =? 0 then cart_entry fields nl (map (fun a : arr => Some (snd a)) arrs)
       else
         let cols := map snd arrs in
         if list_lengths_differ cols then
